@@ -48,6 +48,16 @@ CHECKS = {
     "C13": ("model_checking", "6 (C13)", "bounded symbolic execution of the real debug-node handling vs. the property's rules",
             "All shapes with N=3 (N=4 thorough) x every debug placement x RUN_DEBUG_NODES on/off x call / executor(target|exclude|root) / setup x one activation edge: invalid placements are rejected at build; "
             "flag off: no debug node entered; flag on: whole call runs each debug node once, pulled-in debug nodes have all inputs; non-debug values equal the reference in both settings.", TB_REAL),
+    "C01": ("translation_validation", "6 (C01)", "symbolic translation validation (z3, uninterpreted node functions): generated describing function under @dag vs. the same code as plain Python",
+            "Every program within a deviation budget of a base program (holes: function / reuse, argument source and form, keyword passing, unpack_to, operators, and_/or_/not_, activation flags, nested DAG calls, "
+            "return shape, defaulted DAG parameter, flavour, configuration by dict/YAML/JSON) is built through the public API and called with symbolic inputs; z3 proves the result equal to the plain-Python "
+            "evaluation and the entered functions equal; a second part proves the returned tuple schedule- and configuration-independent on the real scheduler under the environment model.", TB_REAL + "; " + TB_SCHED),
+    "C10": ("translation_validation", "6 (C10)", "symbolic translation validation (z3) of programs with activation flags of every form",
+            "Flag forms (constants True/False/None/0/3, DAG argument, node result, result[k], unpacked element, operator expression) x target (plain node, reused node, nested DAG, node inside a nested DAG) x position: "
+            "result terms and per-function entry counts equal the plain-Python reference `f(..) if flag else None`.", TB_REAL),
+    "C20": ("translation_validation", "6 (C20)", "symbolic translation validation (z3) of nested DAG calls vs. plain-Python inlining",
+            "Nesting depth <= 3, inner signatures (1..2 required, 0..2 defaulted), supplied argument counts, constants or results as arguments, return shapes single/tuple/list/dict used by index, unpack, pass-on or "
+            "returned whole, inner nodes with keyword / indexed arguments and own flags, shared function names in outer and inner DAG: result terms equal inlining; any build failure is a violation.", TB_REAL),
 }
 
 NA_REASON = "check not built yet (work in progress)"
